@@ -1,3 +1,4 @@
+import re
 from sly import Parser
 from mindsdb_sql.parser.ast import *
 from mindsdb_sql.parser.ast.drop import DropDatabase, DropView
@@ -1864,13 +1865,12 @@ class MindsDBParser(Parser):
 
     @_('QUOTE_STRING')
     def quote_string(self, p):
-        value = p[0].replace('\\"', '"').replace("\\'", "'").replace("''", "'")
-        return value.strip('\'')
+        # without the delimiters; '' and backslash-quote are one quote, decoded in one pass (a doubled backslash stays a pair)
+        return re.sub(r"""(\\\\)|\\(['"])|'(')""", r'\1\2\3', p[0][1:-1])
 
     @_('DQUOTE_STRING')
     def dquote_string(self, p):
-        value = p[0].replace('\\"', '"').replace("\\'", "'")
-        return value.strip('\"')
+        return re.sub(r"""(\\\\)|\\(['"])""", r'\1\2', p[0][1:-1])
 
     # for raw query
 
